@@ -294,7 +294,7 @@ Section Correct.
       assert (vtype_eqb (ty_int sg w) ty_bool = false) as ->.
       { unfold vtype_eqb; cbn. okw_cases Hw; reflexivity. }
       assert (Hcw : match k with KBoolOp => true | KLit _ true => fx_bool_int (fx cfg) | _ => false end = true).
-      { destruct k as [? [|]| | | | | | |]; cbn in Hk; try contradiction; reflexivity. }
+      { destruct k as [? [|]| | | | | | | |]; cbn in Hk; try contradiction; reflexivity. }
       rewrite Hcw.
       cbn [vt_bool ty_bool ty_int andb negb cond_wrap rd pv_term].
       eexists; split; [reflexivity|]. split; [|split; [reflexivity|split; [discriminate|]]].
@@ -525,7 +525,8 @@ Section Correct.
       (erewrite bind_OK by reflexivity); (erewrite bind_OK by reflexivity);
       (rewrite lit_match2 by exact Hnl); cbn [arith_of];
       (erewrite bind_OK by exact H1); cbn beta iota; unfold ret, arith_il_exec;
-      destruct (fx cfg).(fx_divmod); destruct (vt_sg (pv_ty a')); reflexivity. }
+      rewrite Ta'; cbn [vt_float ty_int andb vt_sg];
+      destruct (fx cfg).(fx_divmod); destruct (fst t); reflexivity. }
     split. { right. exists (fst t), (snd t). cbn. auto. }
     split. { cbn. auto. }
     intros ms va vc Sa Sc.
@@ -639,7 +640,7 @@ Section Correct.
     destruct (sem_int _ _ _ _ _ Ta' Sa') as [x [-> [Hx Ex]]]. destruct (sem_int _ _ _ _ _ Tc' Sc') as [y [-> [Hy Ey]]].
     exists (VB (cmp_fun b (interp t x) (interp t y))). split.
     - split; [|apply shape_bool].
-      cbn [pv_term]. rewrite Ta', Tc'. unfold cmp_il_exec. cbn [vt_sg ty_int]. unfold rd.
+      cbn [pv_term]. rewrite Ta', Tc'. unfold cmp_il_exec. cbn [vt_sg ty_int vt_float andb]. unfold rd.
       destruct t as [sg w] eqn:Et. cbn [fst snd] in *.
       assert (Hu : forall z, 0 <= z < pow2 w -> interp (false, w) z = z) by (intros; apply interp_unsigned; auto).
       destruct Hb as [-> | [-> | [-> | [-> | [-> | ->]]]]]; cbn [String.eqb Ascii.eqb Bool.eqb cmp_fun];
@@ -727,8 +728,8 @@ Section Correct.
   Lemma is_boolop_good p : goodpv p -> is_boolop cfg p = vt_bool (pv_ty p).
   Proof.
     unfold is_boolop. intros [[Ht Hk] | [sg [w [_ [Ht Hk]]]]]; rewrite Ht.
-    - destruct (pv_kind p) as [? [|]| | | | |? [|] | |]; cbn in Hk; try contradiction; reflexivity.
-    - cbn [vt_bool ty_int]. destruct (pv_kind p) as [? [|]| | | | |? [|] | |]; cbn in Hk; try contradiction; reflexivity.
+    - destruct (pv_kind p) as [? [|]| | | | |? [|] | | |]; cbn in Hk; try contradiction; reflexivity.
+    - cbn [vt_bool ty_int]. destruct (pv_kind p) as [? [|]| | | | |? [|] | | |]; cbn in Hk; try contradiction; reflexivity.
   Qed.
 
   Lemma cond_ok p ms v : goodpv p -> sem ms p v ->
@@ -1032,13 +1033,13 @@ Section Correct.
     (match pv_kind p with KTmp n true => X n | _ => ret tt end) = ret tt.
   Proof.
     intros [[_ Hk] | [sg [w [_ [_ Hk]]]]];
-    destruct (pv_kind p) as [? [|]| | | | |? [|] | |]; cbn in Hk; try contradiction; reflexivity.
+    destruct (pv_kind p) as [? [|]| | | | |? [|] | | |]; cbn in Hk; try contradiction; reflexivity.
   Qed.
 
   Lemma fold_cond_nolit p : goodpv p -> ~ islit p -> fold_cond p = None.
   Proof.
     unfold fold_cond, islit. intros [[_ Hk] | [sg [w [_ [_ Hk]]]]] Hn;
-    destruct (pv_kind p) as [? [|]| | | | |? [|] | |]; cbn in Hk; try contradiction; try reflexivity; exfalso; apply Hn; exact I.
+    destruct (pv_kind p) as [? [|]| | | | |? [|] | | |]; cbn in Hk; try contradiction; try reflexivity; exfalso; apply Hn; exact I.
   Qed.
 
   Lemma cond_tail_ok pc pt pf st : goodpv pc -> goodpv pt -> goodpv pf -> ~ islit pc ->
